@@ -4,6 +4,7 @@ import (
 	"context"
 	"errors"
 	"fmt"
+	"slices"
 	"sync"
 	"testing/synctest"
 	"time"
@@ -57,7 +58,7 @@ type WorldOptions struct {
 	Inmem      []inmem.StateOption
 	RTLatency  func(op string, n int) time.Duration // latency before runtime-side calls
 	RTFault    func(op string, k model.Key, n int) error
-	DelivDelay func(n int) time.Duration // delay before each aggregated watch batch is handed to the runtime
+	DelivDelay func(n int) time.Duration // delay before each aggregated watch batch is handed to the runtime; negative: delay, then coalesce the batches pending meanwhile
 	// InjectErrored, when non-nil, is consulted for every batch delivered to the runtime: returning an error
 	// replaces the batch by an Errored event.
 	InjectErrored func(n int) error
@@ -421,11 +422,32 @@ func (r *RecState) WatchKindAggregated(ctx context.Context, k resource.Kind, ch 
 			r.mu.Unlock()
 
 			if r.delivDelay != nil {
-				if d := r.delivDelay(n); d > 0 {
+				d := r.delivDelay(n)
+
+				// a negative delay means: delay, then coalesce every batch that became pending meanwhile into this one
+				// (the aggregated watch contract allows any batching of the ordered event sequence)
+				coalesce := d < 0
+				if coalesce {
+					d = -d
+				}
+
+				if d > 0 {
 					select {
 					case <-ctx.Done():
 						return
 					case <-time.After(d):
+					}
+				}
+
+				for coalesce {
+					// let the producer reach its next send (the fake clock only advances once everything else is blocked)
+					time.Sleep(time.Nanosecond)
+
+					select {
+					case more := <-inner:
+						evs = append(slices.Clone(evs), more...)
+					default:
+						coalesce = false
 					}
 				}
 			}
